@@ -1,7 +1,7 @@
 (* Property C01 -- port pressure is a feasible split of each instruction's micro-ops.
-   Theorems only; proofs are in Proofs/{Feasible,PressureQ,BalanceFrame}.v. *)
+   Theorems only; proofs are in Proofs/{Feasible,PressureQ,BalanceFrame,BalanceSingle}.v. *)
 From Coq Require Import QArith List Bool String ZArith PrimFloat.
-From OV Require Import Model.Num Model.Pressure Model.Family Model.Family2 Proofs.Feasible Proofs.PressureQ Proofs.BalanceFrame Proofs.Family2.
+From OV Require Import Model.Num Model.Pressure Model.Family Model.Family2 Proofs.Feasible Proofs.PressureQ Proofs.BalanceFrame Proofs.Family2 Proofs.BalanceSingle.
 Import ListNotations.
 Open Scope Q_scope.
 
@@ -102,3 +102,66 @@ Proof.
   intros u [H|[H|[]]]; subst; unfold wf_names; cbn [fst snd]; repeat split; try discriminate;
     try (vm_compute; discriminate); vm_compute; repeat constructor; simpl; intuition discriminate.
 Qed.
+
+(* (7) optimised scheduling of a SINGLE-MICRO-OP instruction, exact rationals, any kernel context k, any position idx,
+       any number n of iterations of the balancing loop, ANY `differences` list b_df: if the still-balanced indices are
+       pairwise different, b_ip holds the cells at those indices and each of them is > 1/200 (round(x, 2) > 0 -- the
+       uniform share c/|ports| of a realistic micro-op), then a loop that does not raise
+       (1) preserves the instruction's total, (2) leaves every cell at the indices >= 0 (and every cell that was >= 0),
+       (3) re-establishes its own invariant, and changes neither the length nor any cell outside the indices. *)
+Theorem C01_single_uop_balance_exact : forall k idx n (s s' : @bstate Q),
+  NoDup (b_ind s) ->
+  getmany (b_pp s) (b_ind s) = Ok (b_ip s) ->
+  List.length (b_ps s) = List.length (b_ind s) ->
+  (forall x, In x (b_ip s) -> 1 # 200 < x) ->
+  bloop QNum n k idx s = Ok s' ->
+  sumn (List.length (b_pp s')) (qnth (b_pp s')) == sumn (List.length (b_pp s)) (qnth (b_pp s)) /\
+  (forall p, In p (b_ind s) -> 0 <= qnth (b_pp s') p) /\
+  (forall p, 0 <= qnth (b_pp s) p -> 0 <= qnth (b_pp s') p) /\
+  (NoDup (b_ind s') /\ incl (b_ind s') (b_ind s) /\ getmany (b_pp s') (b_ind s') = Ok (b_ip s') /\
+   List.length (b_ps s') = List.length (b_ind s') /\ (forall x, In x (b_ip s') -> 1 # 200 < x)) /\
+  List.length (b_pp s') = List.length (b_pp s) /\
+  (forall j, ~ In j (b_ind s) -> qnth (b_pp s') j = qnth (b_pp s) j).
+Proof. exact bloop_single_exact_sumn. Qed.
+Print Assumptions C01_single_uop_balance_exact.
+
+(* (8) ... hence for one micro-op (c, ps) with pairwise different resolvable ports, balanced on a vector whose cells at
+       those ports are > 1/200 (anything elsewhere): total preserved, cells on the ports >= 0, the rest untouched ... *)
+Theorem C01_single_uop_balance_uop_exact : forall ports k idx pp c ps ind pp' e,
+  indices_of ports ps = Ok ind -> NoDup ind ->
+  (forall p, In p ind -> 1 # 200 < qnth pp p) ->
+  balance_uop QNum ports k idx pp (c, ps) = Ok (pp', e) ->
+  sumn (List.length pp') (qnth pp') == sumn (List.length pp) (qnth pp) /\
+  (forall p, In p ind -> 0 <= qnth pp' p) /\
+  List.length pp' = List.length pp /\
+  (forall j, ~ In j ind -> qnth pp' j = qnth pp j).
+Proof. exact balance_uop_single_exact_sumn. Qed.
+Print Assumptions C01_single_uop_balance_uop_exact.
+
+(* (9) ... and the balanced pressure of a single-micro-op instruction (uniform pressure from the model's
+       average_port_pressure, then the per-instruction loop balance_uops) is a feasible split with slack 0. *)
+Theorem C01_single_uop_balance_feasible : forall ports k idx c ps pp ex pp' e,
+  avg_pressure_list QNum ports [(c, ps)] = Ok pp ->
+  wf_names ports (c, ps) ->
+  1 # 200 < c / inject_Z (Z.of_nat (List.length ps)) ->
+  balance_uops QNum ports k idx pp [(c, ps)] ex = Ok (pp', e) ->
+  Feasible (List.length ports) 0 [toU ports (c, ps)] (qnth pp').
+Proof. exact single_uop_instruction_feasible. Qed.
+Print Assumptions C01_single_uop_balance_feasible.
+
+(* non-vacuity of (7)-(9): a 3-port, 2-instruction kernel whose first instruction has one micro-op on two ports;
+   the hypotheses hold and the loop (100 iterations) moves 1/4 cycle from port 0 to port 1; a second kernel where
+   rule 1 fires with a non-zero residual *)
+Example C01_single_uop_nonvacuous :
+  avg_pressure_list QNum ex_ports [ex_uop] = Ok [1 # 2; 1 # 2; 0] /\
+  wf_names ex_ports ex_uop /\
+  1 # 200 < fst ex_uop / inject_Z (Z.of_nat (List.length (snd ex_uop))) /\
+  balance_uop QNum ex_ports ex_kernel 0 [1 # 2; 1 # 2; 0] ex_uop = Ok ([1 # 4; 3 # 4; 0], 0%nat).
+Proof. exact single_uop_nonvacuous. Qed.
+
+Example C01_single_uop_loop_nonvacuous :
+  let s := mkb [1 # 2; 1 # 2; 0] [0; 1]%nat [1 # 2; 1 # 2] [7; 7; 7] [1; 1 # 2] 0%nat in
+  NoDup (b_ind s) /\ getmany (b_pp s) (b_ind s) = Ok (b_ip s) /\ List.length (b_ps s) = List.length (b_ind s) /\
+  (forall x, In x (b_ip s) -> 1 # 200 < x) /\
+  exists s', bloop QNum 100 ex_kernel 0 s = Ok s' /\ b_pp s' = [1 # 4; 3 # 4; 0].
+Proof. exact bloop_single_nonvacuous. Qed.
